@@ -17,6 +17,7 @@ from . import regexfmt
 from . import v2version
 from . import v2patterns
 from .patterns import Pattern
+from . import _verif
 
 logger = logging.getLogger("bumpver.v2rewrite")
 
@@ -39,6 +40,7 @@ def rewrite_lines(
         span_l, span_r = match.span
         new_line = match.line[:span_l] + replacement + match.line[span_r:]
         new_lines[match.lineno] = new_line
+        _verif.emit("rewrite.match", lineno=match.lineno, span=match.span, pattern=match.pattern.raw_pattern, replacement=replacement)
 
     if set(patterns) == found_patterns:
         return new_lines
@@ -165,3 +167,4 @@ def rewrite_files(
         new_content = file_data.line_sep.join(file_data.new_lines)
         with io.open(file_data.path, mode="wt", newline='', encoding="utf-8") as fobj:
             fobj.write(new_content)
+        _verif.emit("rewrite.write", path=file_data.path, line_sep=file_data.line_sep, n_lines=len(file_data.new_lines))
